@@ -1,7 +1,8 @@
 import DoitModel.Model.Run
 /-! # M1 extension for C08: the denotational outcome of a run, and the data path between worker and main process
 
-Part 1 (`Den`, `combine`, `denF`, `denClosure`, `denExit`): what a *complete* run (no early stop) does to every task,
+Part 1 (`Den`, `combine`, `denF`, `denClosure`, `denExit`; 1b: `denTab`, `closureTab` with calc_dep edges): what a
+*complete* run (no early stop) does to every task,
 as a function of the input only — no dispatcher, no queues, no schedule.  `Props/C08.lean` proves that every
 transition system of `Model/Run.lean` (serial, thread, process; every choice sequence) refines it.
 
@@ -126,6 +127,126 @@ def monC08Den (inp : RunInput) (nTasks : Nat) (tr : List Ev) (exit : Nat) (compl
 /-- (P) for a pair of runs of the same input (serial vs parallel): same report per task, same exit code -/
 def monC08Pair (nTasks : Nat) (tr1 tr2 : List Ev) (exit1 exit2 : Nat) : Bool :=
   ((List.range nTasks).all fun t => reportOf tr1 t == reportOf tr2 t) && exit1 == exit2
+
+/-! ## Part 1b: denotation with dynamic `calc_dep` edges (executable)
+
+The dependency list of a task under given outcomes (`depsF`: task_deps, the calc_dep set closed under what executed /
+up-to-date members deliver, and the task_deps / file_dep owners they deliver), the outcomes as a table computed bottom-up
+(`denTab`), the closure of the selection (`closureTab`) and the decidable side condition `determinedOf` (everything
+needed was closed within the given number of rounds and nothing needed is undetermined).  `Proofs/C08DynExec.lean`: a
+determined answer is THE relational denotation `Dyn.DenOf` / `Dyn.DenCl` of `Proofs/C08Dyn*.lean`. -/
+
+/-- first pass of `Runner.select_task` over the dependency list `L` (`stage1` is the case `L = taskDep n`) -/
+def stage1L (inp : RunInput) (dd : Name → Den) (L : List Name) (n : Name) : Stage1 :=
+  if L.any (fun d => (dd d).isIgn) = true ∨ inp.ignored n = true then .ign
+  else if L.any (fun d => (dd d).isFail) = true then .unmet
+  else if inp.statusOf n = .error then .depErr
+  else if effStatus inp n = .utd then .utd
+  else .run
+
+def combineL (inp : RunInput) (dd : Name → Den) (L : List Name) (n : Name) : Den :=
+  match stage1L inp dd L n with
+  | .ign => .ign
+  | .unmet => .fail .unmet
+  | .depErr => .fail .depErr
+  | .utd => .utd
+  | .run => stage2 inp dd n
+
+
+def appNew (ds acc : List Name) : List Name := ds.foldl (fun a d => if d ∈ a then a else a ++ [d]) acc
+
+/-- one closure round: every member `c` of `cs` contributes `f c` -/
+def roundWith (f : Name → List Name) (cs : List Name) : List Name := cs.foldl (fun acc c => appNew (f c) acc) cs
+
+def iterN (step : List Name → List Name) : Nat → List Name → List Name
+  | 0, cs => cs
+  | k + 1, cs => iterN step k (step cs)
+
+/-- `cs` is closed under `f` -/
+def closedWith (f : Name → List Name) (cs : List Name) : Bool := cs.all fun c => (f c).all fun x => decide (x ∈ cs)
+
+/-- what calc_dep `c` contributes to the calc_dep set of the task that has it, under the outcomes `dd` -/
+def calcOut (inp : RunInput) (dd : Name → Den) (c : Name) : List Name :=
+  if (dd c).rs.good then (inp.calcRes c).calcs else []
+
+/-- the calc_deps of `n` under the outcomes `dd`, `k` rounds -/
+def calcsF (inp : RunInput) (dd : Name → Den) (k : Nat) (n : Name) : List Name :=
+  iterN (roundWith (calcOut inp dd)) k (dedup (inp.calcDep n))
+
+/-- what calc_dep `c` delivers as task_deps -/
+def taskOut (inp : RunInput) (dd : Name → Den) (c : Name) : List Name :=
+  if (dd c).rs.good then (inp.calcRes c).tasks ++ (inp.calcRes c).files else []
+
+/-- the dependency list of `n` under the outcomes `dd` (`none`: `k` rounds did not close the calc_dep set) -/
+def depsF (inp : RunInput) (dd : Name → Den) (k : Nat) (n : Name) : Option (List Name) :=
+  if closedWith (calcOut inp dd) (calcsF inp dd k n) = true then
+    some (inp.taskDep n ++ calcsF inp dd k n ++ (calcsF inp dd k n).flatMap (taskOut inp dd))
+  else none
+
+/-- one bottom-up step of the denotation: the outcome of `n` from the outcomes `dd` of everything else -/
+def stepC (inp : RunInput) (k : Nat) (dd : Name → Den) (n : Name) : Den :=
+  match depsF inp dd k n with
+  | none => .bot
+  | some L =>
+    if L.any (fun d => (dd d).isBot) = true then .bot
+    else if stage1L inp dd L n = .run ∧ (inp.setup n).any (fun d => (dd d).isBot) = true then .bot
+    else combineL inp dd L n
+
+/-- a table of outcomes as a function (`bot` outside the table) -/
+def ddTab (tab : List Den) : Name → Den := fun x => tab.getD x .bot
+
+def tabStep (inp : RunInput) (N k : Nat) (prev : List Den) : List Den :=
+  (List.range N).map (stepC inp k (ddTab prev))
+
+/-- executable denotation with dynamic edges: the table of the outcomes of the tasks `< N` after `f` bottom-up
+    rounds (`k`: closure rounds of the calc_dep sets) -/
+def denTab (inp : RunInput) (N k : Nat) : Nat → List Den
+  | 0 => []
+  | f + 1 => tabStep inp N k (denTab inp N k f)
+
+/-- what a member `t` of the closure contributes to it -/
+def contribC (inp : RunInput) (dd : Name → Den) (k : Nat) (t : Name) : List Name :=
+  match depsF inp dd k t with
+  | none => []
+  | some L =>
+    if L.any (fun d => (dd d).isBot) = true then L
+    else if stage1L inp dd L t = .run then L ++ inp.setup t else L
+
+def closureTab (inp : RunInput) (tab : List Den) (k : Nat) : List Name :=
+  iterN (roundWith (contribC inp (ddTab tab) k)) k (dedup inp.sel)
+
+/-- every member of the computed closure `cl` is determined, has a closed dependency list without undetermined
+    entries, and `cl` is closed: the decidable hypothesis under which the table / `cl` ARE the denotation -/
+def determinedOf (inp : RunInput) (tab : List Den) (k : Nat) (cl : List Name) : Bool :=
+  closedWith (contribC inp (ddTab tab) k) cl &&
+  cl.all fun t =>
+    !(ddTab tab t).isBot &&
+    match depsF inp (ddTab tab) k t with
+    | none => false
+    | some L => !(L.any fun d => (ddTab tab d).isBot)
+
+/-- (P) for one run against a table of outcomes and a closure -/
+def monDenOf (tab : List Den) (cl : List Name) (nTasks : Nat) (tr : List Ev) (exit : Nat) (complete : Bool) : Bool :=
+  ((List.range nTasks).all fun t =>
+    match reportOf tr t with
+    | some d => ddTab tab t == d
+    | none => true) &&
+  (!complete ||
+    (((List.range nTasks).all fun t => (reportOf tr t).isSome == decide (t ∈ cl)) &&
+     exit == exitOfDens (cl.map (ddTab tab))))
+
+/-- THE table for tasks `< nTasks` -/
+def denTabC (inp : RunInput) (nTasks : Nat) : List Den := denTab inp nTasks (nTasks + 1) (nTasks + 1)
+def denFC (inp : RunInput) (nTasks : Nat) (t : Name) : Den := ddTab (denTabC inp nTasks) t
+def denClosureC (inp : RunInput) (nTasks : Nat) : List Name := closureTab inp (denTabC inp nTasks) (nTasks + 1)
+def determinedC (inp : RunInput) (nTasks : Nat) : Bool :=
+  determinedOf inp (denTabC inp nTasks) (nTasks + 1) (closureTab inp (denTabC inp nTasks) (nTasks + 1))
+def denExitC (inp : RunInput) (nTasks : Nat) : Nat :=
+  exitOfDens ((denClosureC inp nTasks).map (ddTab (denTabC inp nTasks)))
+
+/-- (P) for one run against the denotation with dynamic edges -/
+def monC08DenC (inp : RunInput) (nTasks : Nat) (tr : List Ev) (exit : Nat) (complete : Bool) : Bool :=
+  monDenOf (denTabC inp nTasks) (closureTab inp (denTabC inp nTasks) (nTasks + 1)) nTasks tr exit complete
 
 /-! ## Part 2: the data path worker → main (process runner)
 
